@@ -132,6 +132,11 @@ fn ends_from_units(units: &[Unit], base_payload: usize) -> Vec<(usize, usize)> {
 /// Reference client: builds a complete request stream carrying `chunks` for `addr`.
 pub fn ref_client_request(cred: &Cred, addr: &Addr, chunks: &[Vec<u8>], o: &ReqOpts, d: &mut Det) -> Result<Frames, String> {
     let k = ref_keys(cred)?;
+    ref_client_request_with_keys(cred, &k, addr, chunks, o, d)
+}
+
+/// Same, with explicit key material (used to build handshakes under keys that differ from the configured ones).
+pub fn ref_client_request_with_keys(cred: &Cred, k: &RefKeys, addr: &Addr, chunks: &[Vec<u8>], o: &ReqOpts, d: &mut Det) -> Result<Frames, String> {
     match cred.proto {
         Proto::SsLegacy(l) => {
             let a = addr.socks();
